@@ -1,11 +1,11 @@
 #!/bin/sh
-# usage: tools/keep_seed.sh <prop> <seed-dir> "<needs>" "<what I ran>" "<detected-by>"
-p=$1; d=$2; mkdir -p /verif/seeded/$p
-cp $d/patch.diff /verif/seeded/$p/patch.diff
-for f in demo.cpp demo.sh notes.md; do [ -f $d/$f ] && cp $d/$f /verif/seeded/$p/$f; done
-python3 - "$p" "$3" "$4" "$5" <<'PY'
+# usage: tools/keep_seed.sh <prop-or-tag e.g. C08 or C08b> <seed-dir> "<needs>" "<what I ran>" "<detected-by>"
+tag=$1; d=$2; p=$(echo $tag | cut -c1-3); mkdir -p /verif/seeded/$tag
+cp $d/patch.diff /verif/seeded/$tag/patch.diff
+for f in demo.cpp demo.sh notes.md; do [ -f $d/$f ] && cp $d/$f /verif/seeded/$tag/$f; done
+python3 - "$p" "$3" "$4" "$5" "$tag" <<'PY'
 import json, sys
-p, needs, ran, det = sys.argv[1:5]
-json.dump(dict(property=p, breaks=p, needs_to_manifest=needs, confirmed_by=ran, detected_by=det), open('/verif/seeded/%s/meta.json' % p, 'w'), indent=1)
+p, needs, ran, det, tag = sys.argv[1:6]
+json.dump(dict(property=p, breaks=p, needs_to_manifest=needs, confirmed_by=ran, detected_by=det), open('/verif/seeded/%s/meta.json' % tag, 'w'), indent=1)
 PY
-echo kept /verif/seeded/$p
+echo kept /verif/seeded/$tag
